@@ -5,4 +5,5 @@ META = {
             'exact payload characters (a literal ~a1~), on where a partial write ends and on clock values, all of which are solver variables here.',
     'note': 'Trusted: json and hashlib (C level); the plugin\'s back-reference extension of CrossHair\'s regex model (validated per path natively); the clock stub. '
             'Known findings F6/F17/F18/F19 are identified by payload predicate (see known_findings.json).',
+    'technique': 'symbolic execution (CrossHair/z3, plugin back-reference model) of the codec kernels on symbolic text; solver-chosen payload characters, truncation offsets, drain schedules and clock steps for pack/unpack and the file queue, executed natively with real files',
 }
